@@ -314,7 +314,7 @@ impl Check for Identity {
                 }
             }
             if let Some((kind, got, exp)) = outcome {
-                st.hit(if got { "tx.ok" } else { "tx.refused" });
+                st.tx(kind, got);
                 if got != exp {
                     let check = if kind == "add_claim" { "add_claim.accepts_iff_valid" } else { "registry.model_eq" };
                     return Err(violation(check, kind, i_step, format!("{s:?}: real {got} model {exp}; now {} keys {:?} trusted {:?}", m.now, m.keys, m.trusted)));
